@@ -52,6 +52,7 @@ def run(ctx):
     cases += valcases.list_form_value_cases(ctx)
     from .. import hostile
     cases += hostile.defaulting_dict_cases()
+    cases += hostile.sentinel_value_cases()
     for c in cases:
         valcorr.run_real(c)
         valcorr.prepare(c)
